@@ -148,7 +148,8 @@ func propC06() *PropSpec {
 			js = append(js, jobsN("xml", "VerifXMLMixed", pick(rng(1, 2), rng(1, 3)), "<a>H1<b>H2</b>H3</a>, holes up to n bytes")...)
 			js = append(js, jobsN("xml", "VerifXMLAttr", pick(rng(0, 4), rng(0, 5)), "<a b=QVQ/>, V = n bytes, both quote kinds")...)
 			js = append(js, jobsN("xml", "VerifXMLCDATA", pick(rng(0, 3), rng(0, 4)), "<a>H1<![CDATA[C]]>H2</a>, C = n bytes")...)
-			js = append(js, jobsN("xml", "VerifXMLUnits", pick(rng(1, 4), rng(1, 5)), "<a>U1..Un</a>, Ui out of 10 units: brackets, references to > < &, CDATA delimiters (]]> fragments)")...)
+			js = append(js, jobsN("xml", "VerifXMLNestedBetween", pick(rng(0, 1), rng(0, 2)), "<r>H0<a>H1 ITEM H2</a>H3</r>: comment / PI / empty element / CDATA inside a nested element after text")...)
+			js = append(js, jobsN("xml", "VerifXMLUnits", pick(rng(1, 4), rng(1, 5)), "<a>U1..Un</a>, Ui out of 14 units: brackets, references to > < &, CDATA delimiters, nested tags, PI, comment")...)
 			js = append(js, jobsN("xml", "VerifXMLBetween", pick(rng(1, 3), rng(1, 4)), "<a>H1 ITEM H2</a>, ITEM in comment/PI/empty element/empty CDATA")...)
 			js = append(js, jobsN("xml", "VerifXMLTextAny", pick(rng(1, 2), rng(1, 3)), "<r><x>H</x><y>1</y></r>, H = n arbitrary bytes (256 values)")...)
 			js = append(js, jobsN("xml", "VerifXMLAttrAny", pick(rng(1, 2), rng(1, 3)), "<a b=\"V\"/>, V = n arbitrary bytes (256 values)")...)
@@ -344,6 +345,8 @@ func propC03() *PropSpec {
 			js = append(js, jobsN("html", "VerifHTMLTree", pick(rng(1, 3), rng(1, 4)), "conforming trees built by n symbolic actions over 13 element kinds + text + comments; reference tree builder on input and output")...)
 			js = append(js, jobsN("html", "VerifHTMLTreeWitness", []int{0}, "recorded witnesses of known findings of the tree harness")...)
 			js = append(js, jobsN("html", "VerifHTMLCaseAttr", pick(rng(0, 2), rng(0, 3)), "20 tag/attribute pairs with case-sensitive values (list type, form values, labels, ids): value kept exactly")...)
+			js = append(js, jobsN("html", "VerifHTMLNonDefaults", []int{0}, "18 tag/attribute/value triples where the value is not the default (formmethod, formenctype, type, method ...): attribute kept")...)
+			js = append(js, jobsN("html", "VerifHTMLTwoTags", []int{0}, "10 pairs of tags of one family in one document: the second tag is minified as on its own")...)
 			js = append(js, jobsN("html", "VerifHTMLPInContainer", []int{0}, "<X><p>a</p>TAIL</X>b for 14 containers (custom elements, transparent content, flow) x 3 tails: </p> omitted only where the end tag closes the paragraph")...)
 			js = append(js, jobsN("html", "VerifHTMLStartTags", []int{0}, "html/head/body/colgroup start tags with and without attributes")...)
 			js = append(js, Job{Pkg: "html", Fn: "VerifHTMLTwin", N: 0, ExpectFail: true, Desc: "vacuity twin"})
@@ -376,6 +379,15 @@ func propC04() *PropSpec {
 			js = append(js, jobsN("css", "VerifCSSColorFunc", []int{0}, "hsl()/hsla()/rgb()/rgba() on argument grids")...)
 			js = append(js, jobsN("css", "VerifCSSNumber", pick(rng(1, 4), rng(1, 5)), "number lexeme of n symbolic bytes x 9 units x 4 properties x KeepCSS2")...)
 			js = append(js, jobsN("css", "VerifCSSLongNumber", []int{0}, "7 numbers of 17-24 significant digits x 4 units x 9 Precision values x KeepCSS2")...)
+			{
+				var shapes []int
+				for i := 1; i <= 2; i++ {
+					for f := 1; f <= 4; f++ {
+						shapes = append(shapes, 10*i+f)
+					}
+				}
+				js = append(js, jobsN("css", "VerifCSSNumberShape", shapes, "width:<I.F><9 exponent suffixes><px|%|none>, I and F symbolic digits: same value and unit")...)
+			}
 			js = append(js, jobsN("css", "VerifCSSImport", pick(rng(0, 4), rng(0, 5)), "@import url(<n bytes over { a b space quotes backslash }>): same URL, well-formed")...)
 			js = append(js, jobsN("css", "VerifCSSAttrSelector", pick(rng(0, 2), rng(0, 3)), "a[lang OP \"V\" MOD]: 6 operators x 5 modifiers x 2 quotes x value of n bytes")...)
 			js = append(js, jobsN("css", "VerifCSSFuncArgs", []int{0}, "fn(A1 SEP A2): 9 x 9 signed/unsigned numbers and dimensions x 5 separators x 4 functions: tokens never fuse")...)
@@ -524,6 +536,7 @@ func propC05() *PropSpec {
 			js = append(js, jobsN("svg", "VerifSVGEntities", pick(rng(0, 2), rng(0, 3)), "<svg><text a=\"U..\">U..</text></svg>, <= n units each (references to < & > \" and text): well-formed, same character data and attribute value")...)
 			js = append(js, jobsN("svg", "VerifSVGColorAttr", []int{0}, "fill / stop-color = # + 3, 4, 6 or 8 symbolic hex digits over { 0 8 A }: same colour and alpha")...)
 			js = append(js, jobsN("svg", "VerifSVGViewBoxValues", []int{0}, "viewBox with 1..6 numbers x separators: the same numbers afterwards")...)
+			js = append(js, jobsN("svg", "VerifSVGForeignObject", []int{0}, "foreignObject content (4 documents, with empty-element tags inside) copied verbatim, inline or not")...)
 			return js
 		},
 	}
